@@ -334,44 +334,22 @@ func (g *gen) inject(pos token.Pos, name string, sig *types.Signature, set *Prov
 		typeInfo *types.Info
 	}
 	var pendingVars []pendingVar
-	ec := new(errorCollector)
+	if errs := injectorCallErrors(g.pkg.Fset, pos, name, calls, injectSig, g.pkg.PkgPath); len(errs) > 0 {
+		return errs
+	}
 	for i := range calls {
 		c := &calls[i]
-		if c.hasCleanup && !injectSig.cleanup {
-			ts := types.TypeString(c.out, nil)
-			ec.add(notePosition(
-				g.pkg.Fset.Position(pos),
-				fmt.Errorf("inject %s: provider for %s returns cleanup but injection does not return cleanup function", name, ts)))
-		}
-		if c.hasErr && !injectSig.err {
-			ts := types.TypeString(c.out, nil)
-			ec.add(notePosition(
-				g.pkg.Fset.Position(pos),
-				fmt.Errorf("inject %s: provider for %s returns error but injection not allowed to fail", name, ts)))
-		}
-		if c.kind == valueExpr {
-			if err := accessibleFrom(c.valueTypeInfo, c.valueExpr, g.pkg.PkgPath); err != nil {
-				// TODO(light): Display line number of value expression.
-				ts := types.TypeString(c.out, nil)
-				ec.add(notePosition(
-					g.pkg.Fset.Position(pos),
-					fmt.Errorf("inject %s: value %s can't be used: %v", name, ts, err)))
-			}
-			if g.values[c.valueExpr] == "" {
-				t := c.valueTypeInfo.TypeOf(c.valueExpr)
+		if c.kind == valueExpr && g.values[c.valueExpr] == "" {
+			t := c.valueTypeInfo.TypeOf(c.valueExpr)
 
-				name := typeVariableName(t, "", func(name string) string { return "_wire" + export(name) + "Value" }, g.nameInFileScope)
-				g.values[c.valueExpr] = name
-				pendingVars = append(pendingVars, pendingVar{
-					name:     name,
-					expr:     c.valueExpr,
-					typeInfo: c.valueTypeInfo,
-				})
-			}
+			name := typeVariableName(t, "", func(name string) string { return "_wire" + export(name) + "Value" }, g.nameInFileScope)
+			g.values[c.valueExpr] = name
+			pendingVars = append(pendingVars, pendingVar{
+				name:     name,
+				expr:     c.valueExpr,
+				typeInfo: c.valueTypeInfo,
+			})
 		}
-	}
-	if len(ec.errors) > 0 {
-		return ec.errors
 	}
 
 	// Perform one pass to collect all imports, followed by the real pass.
@@ -395,6 +373,39 @@ func (g *gen) inject(pos token.Pos, name string, sig *types.Signature, set *Prov
 		g.p(")\n\n")
 	}
 	return nil
+}
+
+// injectorCallErrors reports why the calls planned for an injector cannot be
+// generated: a provider returns a cleanup function or an error that the
+// injector's signature does not allow for, or a value expression mentions
+// identifiers that the injector's package cannot use.
+func injectorCallErrors(fset *token.FileSet, pos token.Pos, name string, calls []call, injectSig outputSignature, pkgPath string) []error {
+	ec := new(errorCollector)
+	for i := range calls {
+		c := &calls[i]
+		if c.hasCleanup && !injectSig.cleanup {
+			ts := types.TypeString(c.out, nil)
+			ec.add(notePosition(
+				fset.Position(pos),
+				fmt.Errorf("inject %s: provider for %s returns cleanup but injection does not return cleanup function", name, ts)))
+		}
+		if c.hasErr && !injectSig.err {
+			ts := types.TypeString(c.out, nil)
+			ec.add(notePosition(
+				fset.Position(pos),
+				fmt.Errorf("inject %s: provider for %s returns error but injection not allowed to fail", name, ts)))
+		}
+		if c.kind == valueExpr {
+			if err := accessibleFrom(c.valueTypeInfo, c.valueExpr, pkgPath); err != nil {
+				// TODO(light): Display line number of value expression.
+				ts := types.TypeString(c.out, nil)
+				ec.add(notePosition(
+					fset.Position(pos),
+					fmt.Errorf("inject %s: value %s can't be used: %v", name, ts, err)))
+			}
+		}
+	}
+	return ec.errors
 }
 
 // rewritePkgRefs rewrites any package references in an AST into references for the
